@@ -334,6 +334,34 @@ func c18Struct(c *Ctx, r *rng.R) {
 	if e := gocty.FromCtyValue(cty.StringVal("1"), &n); e == nil {
 		c.Fail("C18/refuses", "a string decoded into an int", nil)
 	}
+	// shape mismatches between objects and structs: missing required attributes (down to none at
+	// all), extra attributes, at the top and nested
+	type req struct {
+		A string `cty:"a"`
+		B int    `cty:"b"`
+	}
+	type wrap struct {
+		R  req   `cty:"r"`
+		Rs []req `cty:"rs"`
+	}
+	var rq req
+	var wr wrap
+	full := cty.ObjectVal(map[string]cty.Value{"a": cty.StringVal("x"), "b": cty.NumberIntVal(1)})
+	for _, bad := range []cty.Value{cty.EmptyObjectVal, cty.ObjectVal(map[string]cty.Value{"a": cty.StringVal("x")}),
+		cty.ObjectVal(map[string]cty.Value{"a": cty.StringVal("x"), "b": cty.NumberIntVal(1), "c": cty.True})} {
+		if e := gocty.FromCtyValue(bad, &rq); e == nil {
+			c.Fail("C18/refuses", fmt.Sprintf("%#v decoded into a struct with required fields a, b", bad), nil)
+		}
+		if e := gocty.FromCtyValue(cty.ObjectVal(map[string]cty.Value{"r": bad, "rs": cty.ListValEmpty(full.Type())}), &wr); e == nil {
+			c.Fail("C18/refuses", fmt.Sprintf("nested %#v decoded into a struct with required fields", bad), nil)
+		}
+		if e := gocty.FromCtyValue(cty.ObjectVal(map[string]cty.Value{"r": full, "rs": cty.ListVal([]cty.Value{bad})}), &wr); e == nil {
+			c.Fail("C18/refuses", fmt.Sprintf("%#v as a list element decoded into a struct with required fields", bad), nil)
+		}
+	}
+	if e := gocty.FromCtyValue(full, &rq); e != nil || rq.A != "x" || rq.B != 1 {
+		c.Fail("C18/from-cty", "a matching object was refused or stored wrongly", nil)
+	}
 	var ps *string
 	if e := gocty.FromCtyValue(cty.NullVal(cty.String), &ps); e != nil || ps != nil {
 		c.Fail("C18/null-pointer", "null into a pointer target must store nil", nil)
